@@ -1,5 +1,5 @@
 (* Lemmas about the dirty-page log of the daemon model (Model.Daemon): C15. *)
-From VV Require Import Base.Bits Base.Rt Base.Val Gen.GenConsts Model.Daemon Proofs.MemProofs.
+From VV Require Import Base.Bits Base.Rt Base.Val Gen.GenConsts Gen.GenBitmap Model.Daemon Proofs.MemProofs.
 From Coq Require Import ZArith ZifyBool ZifyNat ZifyN Permutation.
 Open Scope list_scope.
 Open Scope N_scope.
@@ -12,6 +12,41 @@ Proof. intros Hg Hx. lia. Qed.
 Lemma rel_page_in_range g size x : size mod 4096 = 0 -> g <= x < g + size -> (x - g) / 4096 < size / 4096.
 Proof. intros Hs Hx. lia. Qed.
 
+(* AtomicBitmapMmap::new as regenerated from bitmap.rs: what an accepted region satisfies and what the bitmap keeps *)
+Lemma bm_new_spec g sz len b n :
+  bm_new g sz len = Some (b, n) ->
+  sz <> 0 /\ g mod 4096 = 0 /\ sz mod 4096 = 0 /\ g + (sz - 1) < 2 ^ 64 /\ ((g + sz - 1) / 4096) / 8 < len
+  /\ b = g / 4096 /\ n = sz / 4096.
+Proof.
+  unfold bm_new, bm_chk_add, bm_page_word, bm_page_number, bm_LOG_PAGE_SIZE, bm_LOG_WORD_SIZE.
+  destruct (N.eqb_spec sz 0) as [E0|E0]; [discriminate|].
+  destruct (N.eqb_spec (g mod 4096) 0) as [Eg|Eg]; cbn [negb orb]; [|discriminate].
+  destruct (N.eqb_spec (sz mod 4096) 0) as [Es|Es]; cbn [negb orb]; [|discriminate].
+  destruct (N.ltb_spec (g + (sz - 1)) (2 ^ 64)) as [Ho|Ho]; [|discriminate].
+  destruct (N.leb_spec len ((g + (sz - 1)) / 4096 / 8)) as [El|El]; [discriminate|].
+  intros H. injection H as <- <-.
+  replace (g + sz - 1) with (g + (sz - 1)) by lia.
+  repeat split; assumption.
+Qed.
+Lemma bm_new_complete g sz len :
+  sz <> 0 -> g mod 4096 = 0 -> sz mod 4096 = 0 -> g + (sz - 1) < 2 ^ 64 -> ((g + sz - 1) / 4096) / 8 < len ->
+  bm_new g sz len = Some (g / 4096, sz / 4096).
+Proof.
+  intros H0 Hg Hs Ho Hl.
+  unfold bm_new, bm_chk_add, bm_page_word, bm_page_number, bm_LOG_PAGE_SIZE, bm_LOG_WORD_SIZE.
+  destruct (N.eqb_spec sz 0) as [E0|E0]; [contradiction|].
+  rewrite Hg, Hs. cbn [N.eqb negb orb].
+  destruct (N.ltb_spec (g + (sz - 1)) (2 ^ 64)) as [Ho'|Ho']; [|lia].
+  replace (g + sz - 1) with (g + (sz - 1)) in Hl by lia.
+  destruct (N.leb_spec len ((g + (sz - 1)) / 4096 / 8)) as [El|El]; [lia|]. reflexivity.
+Qed.
+Lemma log_fits_spec len r : log_fits len r = true ->
+  rg_gpa r mod 4096 = 0 /\ rg_size r mod 4096 = 0 /\ ((rg_gpa r + rg_size r - 1) / 4096) / 8 < len.
+Proof.
+  unfold log_fits. destruct (bm_new (rg_gpa r) (rg_size r) len) as [[b n]|] eqn:E; [|discriminate].
+  intros _. apply bm_new_spec in E. tauto.
+Qed.
+
 (* for a region accepted by SET_LOG_BASE (page-aligned, covered by the log), a written byte at guest address x
    sets exactly bit (x / 4096) mod 8 of log byte (x / 4096) / 8 of the window, and that byte lies inside the window *)
 Lemma mark_loc_exact r x f off len :
@@ -19,12 +54,14 @@ Lemma mark_loc_exact r x f off len :
   mark_loc r x = Some (f, off + (x / 4096) / 8, 2 ^ ((x / 4096) mod 8)) /\ (x / 4096) / 8 < len.
 Proof.
   intros Hl Hf Hx. unfold log_fits in Hf.
-  apply Bool.andb_true_iff in Hf. destruct Hf as [Hf Hw]. apply Bool.andb_true_iff in Hf. destruct Hf as [Hg Hs].
-  apply N.eqb_eq in Hg. apply N.eqb_eq in Hs. apply N.ltb_lt in Hw.
-  unfold mark_loc. rewrite Hl.
+  destruct (bm_new (rg_gpa r) (rg_size r) len) as [[b n]|] eqn:E; [|discriminate].
+  pose proof (bm_new_spec _ _ _ _ _ E) as (H0 & Hg & Hs & Ho & Hw & -> & ->).
+  unfold mark_loc. rewrite Hl, E.
+  unfold bm_md_first_page, bm_md_stop, bm_md_abs, bm_md_word, bm_md_mask, bm_page_number, bm_page_word, bm_page_bit,
+    bm_LOG_PAGE_SIZE, bm_LOG_WORD_SIZE.
   pose proof (rel_page_in_range (rg_gpa r) (rg_size r) x Hs Hx) as Hp.
-  destruct ((x - rg_gpa r) / 4096 <? rg_size r / 4096) eqn:E; [|lia].
-  rewrite (page_of_aligned (rg_gpa r) x Hg) by lia. split; [reflexivity|].
+  destruct (N.leb_spec (rg_size r / 4096) ((x - rg_gpa r) / 4096)) as [E2|E2]; [lia|].
+  rewrite (page_of_aligned (rg_gpa r) x Hg) by lia. rewrite N.shiftl_1_l. split; [reflexivity|].
   assert (x / 4096 <= (rg_gpa r + rg_size r - 1) / 4096) by (apply N.div_le_mono; lia).
   assert ((x / 4096) / 8 <= ((rg_gpa r + rg_size r - 1) / 4096) / 8) by (apply N.div_le_mono; lia).
   lia.
@@ -221,3 +258,40 @@ Proof.
     + destruct Hs as (_ & _ & _ & _ & _ & Hl & _). rewrite Hl. discriminate.
     + subst. exact H.
 Qed.
+
+(* ---- the regenerated arithmetic of bitmap.rs ---- *)
+(* the pages AtomicBitmapMmap::mark_dirty walks for a write of len > 0 bytes at offset are exactly the pages of the
+   written bytes: this is what lets the model mark byte by byte *)
+Lemma md_pages_are_byte_pages offset len p :
+  0 < len -> offset + (len - 1) < 2 ^ 64 ->
+  (bm_md_first_page offset len <= p <= bm_md_last_page offset len <-> exists i, i < len /\ p = (offset + i) / 4096).
+Proof.
+  intros Hl Ho. unfold bm_md_first_page, bm_md_last_page, bm_sat_add, bm_page_number, bm_LOG_PAGE_SIZE.
+  rewrite N.min_l by lia. split.
+  - intros [H1 H2]. destruct (N.eq_dec p (offset / 4096)) as [->|Hne].
+    + exists 0. split; [lia|]. rewrite N.add_0_r. reflexivity.
+    + exists (p * 4096 - offset). split; lia.
+  - intros (i & Hi & ->). split; apply N.div_le_mono; lia.
+Qed.
+(* a zero-length write marks nothing *)
+Lemma md_skip_zero offset : bm_md_skip offset 0 = true.
+Proof. reflexivity. Qed.
+(* the word and mask of an absolute page: log byte page / 8, bit page mod 8 (LSB first) *)
+Lemma md_word_mask page : bm_md_word page = page / 8 /\ bm_md_mask page = 2 ^ (page mod 8).
+Proof. unfold bm_md_word, bm_md_mask, bm_page_word, bm_page_bit, bm_LOG_WORD_SIZE. rewrite N.shiftl_1_l. split; reflexivity. Qed.
+(* the code around the expressions: one loop over first..=last, out-of-bounds pages end it, an atomic OR per page *)
+Fixpoint strs_eqb (a b : list string) : bool :=
+  match a, b with
+  | [], [] => true
+  | x :: ra, y :: rb => String.eqb x y && strs_eqb ra rb
+  | _, _ => false
+  end.
+Definition bm_shape_ok : bool :=
+  strs_eqb bm_md_shape ["for page in first_page ..= last_page"; "if .. { break ; }"; "let page";
+                        "self . logmem [page_word (page)] . fetch_or"]%string
+  && String.eqb bm_region_mark_dirty_src
+       "{ let inner = self . inner . read () . unwrap () ; if let Some (bitmap) = inner . as_ref () { if let Some (absolute_offset) = self . base_address . checked_add (offset) { bitmap . mark_dirty (absolute_offset , len) ; } } }"
+  && String.eqb bm_region_slice_at_src
+       "{ Self { inner : Arc :: clone (& self . inner) , base_address : self . base_address . saturating_add (offset) , } }".
+Lemma bm_shape_ok_true : bm_shape_ok = true.
+Proof. vm_compute. reflexivity. Qed.
